@@ -268,6 +268,19 @@ def run(world, rep, tier, only=None):
                "the 'Please run e2fsck -f first' arm never reaches resize_fs")
 
 
+
+    # ------------------------------------------------------------------ C08.e renumbered directories are rewritten completely
+    # (shared with C10.b) a shrink that renumbers a directory must rewrite every one of its blocks, because with
+    # metadata_csum the block checksum is seeded with the inode number: the fix-up callback therefore reports
+    # DIRENT_CHANGED before it looks at the entry's inode, and only sees blocks holding nothing but unused entries
+    # when the iteration includes them
+    from rules import C10
+    es = [s_ for s_ in C10.empty_entry_sites(prog) if s_[0].file.startswith("resize/")]
+    rep.floor("C08.e directory walks of resize2fs whose callback needs unused entries", len(es), 1)
+    for (f, c_, g, why, ok, fl) in es:
+        rep.ob("C08.e", site(f, "%s is shown unused entries too" % g.name), ok,
+               "%s %s: flags `%s` contain DIRENT_FLAG_INCLUDE_EMPTY" % (g.name, why, T.pp(fl)[:30]))
+
 def _cn(n):
     return T.call_names(n.ev["x"])[0] if T.call_names(n.ev["x"]) else "?"
 
